@@ -17,7 +17,7 @@ from vlib.sim import Sim, api_app
 
 PROPERTY = 'C16'
 RULE = ('matrix: every /v1/peer/ rule x {GET,HEAD,POST,PUT,DELETE,PATCH,OPTIONS} x {no credentials, wrong user, wrong password, '
-        'empty password, right} x {Idle-fresh, Idle-stopped, Connect, OpenSent, OpenConfirm, Established} x {valid, empty, '
+        'empty password, prefix / longer / other case, empty user, swapped, right; a second configured account} x {Idle-fresh, Idle-stopped, Connect, OpenSent, OpenConfirm, Established} x {valid, empty, '
         'malformed} body; sends: generated UPDATE requests (IPv4 + standard attributes, IPv6 unicast, VPNv4), route-refresh '
         'and bin_update requests on eBGP / iBGP sessions in 4- and 2-octet-AS mode, with [bgp] rib on / off and 0-2 earlier '
         'announcements on the same session whose prefixes the checked request may withdraw or re-announce, plus the enumerated grid session kind x '
@@ -32,7 +32,13 @@ PEER = '10.0.0.2'
 SENDING = ('send/update', 'send/route-refresh', 'send/bin_update', 'json_to_bin', 'adj-rib-in', 'adj-rib-out')
 STATES = ['IDLE-fresh', 'IDLE-stopped', 'CONNECT', 'OPENSENT', 'OPENCONFIRM', 'ESTABLISHED']
 CREDS = {'none': None, 'wrong-user': ('root', 'admin'), 'wrong-password': ('admin', 'nimda'), 'empty-password': ('admin', ''),
+         'password-prefix': ('admin', 'admi'), 'password-longer': ('admin', 'admin1'), 'password-case': ('admin', 'ADMIN'),
+         'user-case': ('Admin', 'admin'), 'empty-user': ('', 'admin'), 'swapped': ('nimda', 'admin'),
          'right': ('admin', 'admin')}
+# a second configured account, to see that the check really compares with the configuration
+ALT_ACCOUNT = ('operator', 's3:cr et')
+ALT_CREDS = {'none': None, 'default-account': ('admin', 'admin'), 'wrong-password': ('operator', 's3'), 'password-prefix': ('operator', 's3:cr e'),
+             'password-up-to-blank': ('operator', 's3:cr'), 'right': ALT_ACCOUNT}
 
 
 def rules():
@@ -56,8 +62,10 @@ def valid_body(rule):
     return None
 
 
-def make_state(name, ibgp=False, as4=True, rib=False):
+def make_state(name, ibgp=False, as4=True, rib=False, account=None):
     kw = dict(hold_time=180, idle_hold_time=30, rib=rib)
+    if account:
+        kw['username'], kw['password'] = account
     if ibgp:
         kw['remote_as'] = 65001
     sim = Sim(**kw)
@@ -92,8 +100,8 @@ def snapshot(sim):
             [(c.id, c.state) for c in sim.reactor.connectors], len(sim.reactor._soon))
 
 
-def matrix_case(state, rule, path, methods, method, cred, bodykind):
-    sim = make_state(state)
+def matrix_case(state, rule, path, methods, method, cred, bodykind, alt=False):
+    sim = make_state(state, account=ALT_ACCOUNT if alt else None)
     if sim.state != state.split('-')[0]:
         return [('harness:state', 'could not reach %s (got %s)' % (state, sim.state))], False
     before = snapshot(sim)
@@ -105,7 +113,7 @@ def matrix_case(state, rule, path, methods, method, cred, bodykind):
         kw['json_body'] = {}
     elif bodykind == 'malformed':
         kw['raw_body'] = '{"attr": '
-    code, body = sim.rest(method, path, auth=CREDS[cred], **kw)
+    code, body = sim.rest(method, path, auth=(ALT_CREDS if alt else CREDS)[cred], **kw)
     sim.reactor.settle(fire_due=True)
     after = snapshot(sim)
     out = []
@@ -123,6 +131,8 @@ def matrix_case(state, rule, path, methods, method, cred, bodykind):
             out.append(('auth:effect:%s:%s' % (short, cred), '%s %s with %s credentials changed the agent: %r -> %r' % (method, path, cred, before, after)))
         return out, True
     # right credentials
+    if code == 401:
+        out.append(('auth:valid-credentials-rejected:%s' % short, '%s %s with the configured credentials answered 401' % (method, path)))
     if sending and state != 'ESTABLISHED' and accepted:
         if code == 200 and isinstance(body, dict) and body.get('status') is not False:
             out.append(('gating:reply:%s:%s' % (short, state), '%s in %s answered %r' % (short, state, body)))
@@ -353,10 +363,21 @@ def run_shard(spec, seed, col, tier):
                             case = {'k': 'matrix', 'state': state, 'rule': rule, 'path': path, 'methods': methods,
                                     'method': method, 'cred': cred, 'body': bodykind}
                             res, nt = matrix_case(state, rule, path, methods, method, cred, bodykind)
-                            col.case(case, nt or cred in ('wrong-user', 'wrong-password', 'empty-password'),
+                            col.case(case, nt or cred not in ('none', 'right'),
                                      labels=['matrix', 'cred:' + cred, 'state:' + state])
                             for sig, detail in res:
                                 col.fail(sig, case, detail)
+            # the same rule with another configured account
+            for state in ('IDLE-fresh', 'ESTABLISHED'):
+                for method in ('GET', 'POST'):
+                    for cred in ALT_CREDS:
+                        bodykind = 'valid' if method == 'POST' else 'none'
+                        case = {'k': 'matrix', 'alt': True, 'state': state, 'rule': rule, 'path': path, 'methods': methods,
+                                'method': method, 'cred': cred, 'body': bodykind}
+                        res, nt = matrix_case(state, rule, path, methods, method, cred, bodykind, alt=True)
+                        col.case(case, True, labels=['matrix-alt-account', 'cred:' + cred])
+                        for sig, detail in res:
+                            col.fail(sig, case, detail)
         return
 
     if spec['kind'] == 'sendgrid':
@@ -396,5 +417,6 @@ def run_shard(spec, seed, col, tier):
 
 def replay(case):
     if case.get('k') == 'matrix':
-        return matrix_case(case['state'], case['rule'], case['path'], case['methods'], case['method'], case['cred'], case['body'])[0]
+        return matrix_case(case['state'], case['rule'], case['path'], case['methods'], case['method'], case['cred'], case['body'],
+                           alt=bool(case.get('alt')))[0]
     return send_case(case)
